@@ -77,7 +77,7 @@ func runC02(r *Run, p *Prog) {
 			role := "other"
 			if cs.Common.IsInvoke() && ro.rootedInCall(cs.Common.Value) {
 				role = "service reply"
-			} else if strings.Contains(strip(T.T(recvOf(cs))), ".conn") {
+			} else if isClientConnRecv(recvOf(cs)) {
 				role = "client call"
 			}
 			writes = append(writes, wsite{cs, role})
@@ -128,7 +128,40 @@ func runC02(r *Run, p *Prog) {
 	// ---- F2
 	r.Guard("F2", func() {
 		n := 0
-		for _, f := range p.FuncsOf(pkgVarlink) {
+		// frame reads are looked at in inlined views (the loop of the connection handler, every other function of the
+		// package that reads a frame - the client's receive function - with its varlink helpers inlined): a helper that
+		// strips the delimiter (`frame(b).payload()`) or reads one frame for its caller is part of the function shown
+		keepF2 := func(callee *ssa.Function) bool {
+			return fnPkgPath(callee) != pkgVarlink || isDispatchTarget(p, ro, callee)
+		}
+		var readFns []*ssa.Function
+		covered := map[*ssa.Function]bool{}
+		for _, l := range ro.ConnLoop {
+			readFns = append(readFns, l)
+			for g := range cg.Reach([]*ssa.Function{origFn(l)}, false) {
+				if !isDispatchTarget(p, ro, g) {
+					covered[g] = true
+				}
+			}
+			covered[origFn(l)] = true
+		}
+		for _, f0 := range p.FuncsOf(pkgVarlink) {
+			if covered[f0] || len(f0.Blocks) == 0 {
+				continue
+			}
+			has := false
+			for _, cs := range callsIn(f0, false) {
+				if isProtoReadBytes(cs) {
+					has = true
+				}
+			}
+			if has {
+				v := p.Inlined(f0, keepF2)
+				cg.AddView(v)
+				readFns = append(readFns, v)
+			}
+		}
+		for _, f := range readFns {
 			for _, cs := range callsIn(f, false) {
 				if !isProtoReadBytes(cs) {
 					continue
